@@ -14,6 +14,8 @@ import (
 
 var (
 	pB0   = u.F("pB0", "", "B")                 // B without dependencies
+	pBaa  = u.F("pBaa", "{A;A@n}", "B")         // the same type twice, unnamed then named
+	pBaa2 = u.F("pBaa2", "{{A@n};A}", "B")      // named (nested) then unnamed
 	pAg   = u.F("pAg", "", "{A;A+g}")           // one constructor, direct value and group member
 	pBe   = u.F("pBe", "A", "B,error")          // may fail by error
 	pAe   = u.F("pAe", "", "A,error")           // may fail by error
@@ -72,6 +74,7 @@ var (
 	iSN2  = u.F("iSN2", "{A*g~;{A*h~;B}}", "") // soft group before a nested object that has a soft group and needs B
 	iSN3  = u.F("iSN3", "{A*g~;{B}}", "")
 	iSN4  = u.F("iSN4", "{{A*h~;B};A*g~}", "")
+	pMBem = u.F("pMBem", "", "B,error,{A+g}")   // B, then the error, then a member of g
 	pXsh  = u.F("pXsh", "{A*g~}", "{C;A+h}")    // soft view of g, feeder of h
 	pCsn  = u.F("pCsn", "{A*g~;{A*h~;B}}", "C") // the same shape as a constructor's parameters
 )
@@ -139,6 +142,10 @@ func c02Units(tier string) []Unit {
 				decos: []*uFunc{dA}, invokes: []*uFunc{iA, iB, iC}}, d, explore.Budget{Provides: 3, Decorates: 1, Invokes: inv, Rejected: 0})
 		}
 	}
+	// a child created after its parent built a key, then shadowing that key with
+	// a constructor that has a second result: one instance per (scope, key)
+	add("late-scope-shadowing", h.Config{}, nil, nil, alpha{scopes: []int{0, 1}, ctors: []*uFunc{pA, pABo}, invokes: []*uFunc{iA, iB}, scopeOps: []int{0}},
+		7, explore.Budget{Scopes: 1, Provides: 2, Invokes: 4, Rejected: 0})
 	// decorators of one key at two levels of a three-scope chain, demanded from
 	// the leaf and from the middle in every order
 	add("decorators-three-levels", h.Config{}, nil, prefixChain, alpha{scopes: []int{0, 1, 2}, ctors: []*uFunc{pA},
@@ -254,6 +261,9 @@ func c04Units(tier string) []Unit {
 		// below optional edges (§3.6-3: definite where dig's behaviour is)
 		add("decorated-unprovided"+tag, cfg, nil, prefixChild, alpha{scopes: scopes2, ctors: []*uFunc{pA, pB, pCob},
 			decos: []*uFunc{dA, dA0}, invokes: []*uFunc{iA, iAo, iB, iBo, iCo}}, d, explore.Budget{Provides: 2, Decorates: 2, Invokes: 2, Rejected: 0})
+		// one constructor asking for the same type twice under different names
+		add("same-type-two-names"+tag, cfg, nil, prefixChild, alpha{scopes: scopes2, ctors: []*uFunc{pA, pAn, pBaa, pBaa2},
+			invokes: []*uFunc{iBo, iB}}, d, b)
 		add("through-groups"+tag, cfg, nil, prefixChild, alpha{scopes: scopes2, ctors: []*uFunc{pA, fBgA, pCgb, pCob}, export: !q,
 			invokes: []*uFunc{iC, iCo, iGB}}, d, b)
 		if !q {
@@ -296,6 +306,10 @@ func c08Units(tier string) []Unit {
 			invokes: []*uFunc{iA, iB}, scopeOps: par}, d, b)
 		add("shadowing"+tag, cfg, nil, nil, alpha{scopes: []int{0, 1, 2}, ctors: []*uFunc{pA, pA2, pB},
 			decos: []*uFunc{dA}, invokes: []*uFunc{iA, iB}, scopeOps: []int{0, 1}}, d, b)
+		// optional consumers (invoked functions and constructors) below the
+		// provider, at every level of a chain, with Export
+		add("optional-consumers"+tag, cfg, nil, prefixChain, alpha{scopes: []int{0, 1, 2}, ctors: []*uFunc{pA, pBo}, export: true,
+			invokes: []*uFunc{iAo, iBo, iB}}, 4, explore.Budget{Provides: 2, Invokes: 2, Rejected: 0})
 		// exported constructors with group / optional / nested-object
 		// parameters, registered before and after others that depend on them:
 		// accepted from, and usable in, every scope
@@ -440,6 +454,8 @@ func c11Units(tier string) []Unit {
 	// group is what its own scope sees
 	add("soft-param-of-exported-feeder", h.Config{}, nil, prefixFork, alpha{scopes: []int{0, 1, 2}, ctors: []*uFunc{pXsh, pMB}, export: true,
 		invokes: []*uFunc{iB, iGH, iC}}, 5, explore.Budget{Provides: 2, Invokes: 3, Rejected: 0})
+	add("members-after-a-mid-list-error", h.Config{}, nil, prefixChild, alpha{scopes: []int{0, 1}, ctors: []*uFunc{pMBem, fG1},
+		invokes: []*uFunc{iS1, iS2, iB, iGs, iG}}, 5, explore.Budget{Provides: 2, Invokes: 3, Rejected: 0})
 	add("two-groups-scoped", h.Config{}, nil, prefixChild, alpha{scopes: []int{0, 1}, ctors: []*uFunc{pMB, pMC, fH}, export: true,
 		invokes: []*uFunc{iSH, iS1, iGH, iC}}, d, b)
 	if !q {
